@@ -37,6 +37,8 @@ import (
 	"strings"
 	"time"
 
+	voied "github.com/oasisprotocol/curve25519-voi/primitives/ed25519"
+
 	"github.com/oasisprotocol/oasis-core/go/common/cbor"
 	"github.com/oasisprotocol/oasis-core/go/common/crypto/signature"
 	"github.com/oasisprotocol/oasis-core/go/common/quantity"
@@ -245,13 +247,36 @@ func (r *ref) apply(a *absTx) (bool, bool) {
 // abstraction of raw bytes (harness-side decoders, independent signature check)
 // ---------------------------------------------------------------------------
 
-// indepValid recomputes Ed25519(pk, SHA-512/256("oasis-core/consensus: tx for chain <chain>" || blob))
-// with the standard library only.
+// indepValid recomputes the verdict without go/common/crypto/signature: the digest
+// SHA-512/256("oasis-core/consensus: tx for chain <chain>" || blob) is built here, and
+// Ed25519 is checked with the SAME primitive and the SAME acceptance rules as the
+// code under test (curve25519-voi, signature.go:75-82: small-order A and R rejected,
+// non-canonical encodings of A and R accepted). The standard library's
+// crypto/ed25519 has different rules (no small-order rejection): e.g. the all-zero
+// public key with the all-zero signature -- what an envelope whose CBOR map header
+// is flipped to "empty map" decodes to -- verifies there for one digest in four.
+// Such differences are counted (stdlibDiffers), they are not disagreements.
+var voiOptions = &voied.Options{
+	Verify: &voied.VerifyOptions{
+		AllowSmallOrderA:   false,
+		AllowSmallOrderR:   false,
+		AllowNonCanonicalA: true,
+		AllowNonCanonicalR: true,
+	},
+}
+
+var stdlibDiffers int
+
 func indepValid(pk signature.PublicKey, blob, sig []byte, chain string) bool {
 	h := sha512.New512_256()
 	h.Write(muxdrv.TxRawContext(chain))
 	h.Write(blob)
-	return ed25519.Verify(ed25519.PublicKey(pk[:]), h.Sum(nil), sig)
+	d := h.Sum(nil)
+	v := voied.VerifyWithOptions(voied.PublicKey(pk[:]), d, sig, voiOptions)
+	if ed25519.Verify(ed25519.PublicKey(pk[:]), d, sig) != v {
+		stdlibDiffers++
+	}
+	return v
 }
 
 func abstract(raw []byte, chain string) (*absTx, bool) {
@@ -1110,7 +1135,7 @@ func sweepBlock(d SweepDesc, sum *coqout.Summary) (coq string, viols []map[strin
 	for i, raw := range raws {
 		a, agree := abstract(raw, chain)
 		if !agree {
-			viol(fmt.Sprintf("tx %d: real verifier and independent recomputation disagree", i))
+			viol(fmt.Sprintf("tx %d (bit %d): real verifier and independent recomputation (same primitive and options) disagree", i, bitOf(d, i)))
 		}
 		abs = append(abs, a)
 		if a.Env && a.Addr != resvKey.Address().String() {
@@ -1201,6 +1226,13 @@ func sweepBlock(d SweepDesc, sum *coqout.Summary) (coq string, viols []map[strin
 	return
 }
 
+func bitOf(d SweepDesc, i int) int {
+	if i < len(d.Bits) {
+		return d.Bits[i]
+	}
+	return -1
+}
+
 func sweepMain(seed uint64, out string, stride, batch int, replay *SweepDesc) {
 	hdr := "From Verif Require Import Lib.Base Auth.Model Auth.Corr Gen.SigContexts.\n"
 	w := coqout.NewWriter(out, hdr, "run_block chain_separator tx_context", "kout_eqb", 4)
@@ -1260,6 +1292,7 @@ func sweepMain(seed uint64, out string, stride, batch int, replay *SweepDesc) {
 	}
 	sum.Extra["findings_seen"] = nf
 	sum.Extra["sweep_seconds"] = int(time.Since(t0).Seconds())
+	sum.Extra["stdlib_ed25519_verdict_differs"] = stdlibDiffers
 	w.Close()
 	sum.Write(out)
 }
@@ -1732,6 +1765,7 @@ func main() {
 			}
 		}
 	}
+	sum.Extra["stdlib_ed25519_verdict_differs"] = stdlibDiffers
 	w.Close()
 	sum.Write(*out)
 }
